@@ -284,6 +284,7 @@ func runC20(c *Ctx) {
 	c20RequiresOwnRepresentation(c, feds)
 	c20BatchPositional(c, feds)
 	c20Small(c, feds)
+	c20Round2(c, feds)
 
 	c.R.Rule("joined", "the goroutines of __resolve_entities and resolveEntityGroup are accounted by their WaitGroups (same analysis as C05/wg-accounting)", 2*len(feds))
 	for _, g := range feds {
